@@ -1,8 +1,13 @@
 //! `slh <Cnn> --tier quick|thorough --seed N [--replay file] [--out file]`
 //! Drives the real searchlite code, talks to the Lean model driver, prints one JSON summary.
+#[allow(dead_code)]
+mod idx;
 mod props;
+#[allow(dead_code)]
 mod proto;
+#[allow(dead_code)]
 mod rng;
+#[allow(dead_code)]
 mod summary;
 #[allow(dead_code)]
 mod util;
@@ -105,7 +110,7 @@ fn main() {
     }
   } else {
     // corpus of minimised past failures first
-    let dir = format!("/verif/corpus/{id}");
+    let dir = format!("{}/corpus/{id}", proto::verif_root());
     if let Ok(rd) = std::fs::read_dir(&dir) {
       let mut files: Vec<_> = rd.filter_map(|e| e.ok()).map(|e| e.path()).collect();
       files.sort();
